@@ -17,13 +17,13 @@ theorem stopFn_beq (q : Req) (h : 0 < q.every) (t u : Int) :
     (stopFn q t == stopFn q u) = (widx q t == widx q u) := by
   rw [stopFn_eq, stopFn_eq]
   by_cases hw : widx q t = widx q u
-  · rw [hw]; simp
+  · rw [hw, beq_self_eq_true, beq_self_eq_true]
   · have : ¬ (q.offset + (widx q t + 1) * q.every = q.offset + (widx q u + 1) * q.every) := by
       intro he
       have : (widx q t + 1) * q.every = (widx q u + 1) * q.every := by omega
       have := Int.eq_of_mul_eq_mul_right (by omega : q.every ≠ 0) this
       omega
-    simp [hw, this]
+    rw [beq_eq_false_iff_ne.mpr this, beq_eq_false_iff_ne.mpr hw]
 
 /-- the aggregate of window `i` over the points `l` -/
 def rowOfIn (o : Ops Val) (q : Req) (l : List (Pt Val)) (i : Int) : Option (Pt Val) :=
@@ -51,6 +51,13 @@ theorem filterMap_cons_toList {β γ : Type} (f : β → Option γ) (x : β) (xs
     (x :: xs).filterMap f = (f x).toList ++ xs.filterMap f := by
   cases h : f x <;> simp [h]
 
+theorem filterMap_congr' {β γ : Type} (f g : β → Option γ) (l : List β) (h : ∀ x ∈ l, f x = g x) :
+    l.filterMap f = l.filterMap g := by
+  induction l with
+  | nil => rfl
+  | cons x xs ih =>
+    rw [filterMap_cons_toList, filterMap_cons_toList, h x (by simp), ih (fun y hy => h y (by simp [hy]))]
+
 /-- **group by window, restated**: the grouped aggregate of C20 is the list of window
     aggregates over the distinct window indices -/
 theorem aggSpec_windows (o : Ops Val) (q : Req) (h : 0 < q.every) :
@@ -70,7 +77,7 @@ theorem aggSpec_windows (o : Ops Val) (q : Req) (h : 0 < q.every) :
     congr 1
     · simp only [rowOfIn, List.filter_cons, beq_self_eq_true, ↓reduceIte]
       rfl
-    · apply List.filterMap_congr
+    · apply filterMap_congr'
       intro i hi
       obtain ⟨x, hx, hxi⟩ := (mem_distinctIdx q _ i).mp hi
       have hne : ¬ widx q p.1 = i := by
@@ -108,5 +115,88 @@ theorem distinctIdx_ascending (q : Req) (h : 0 < q.every) :
     have hle := widx_mono q h (hs.1 x hm.1)
     have hne : ¬ widx q x.1 = widx q p.1 := by simpa using hm.2
     omega
+
+end Influx.FluxTable
+
+namespace Influx.FluxTable
+open Influx.WindowAgg Influx.Spec.C41
+
+/-- the raw rows of window `i` -/
+def members (q : Req) (pts : List (Pt Val)) (i : Int) : List (Pt Val) := pts.filter fun x => widx q x.1 == i
+
+/-- value of a non-selector aggregate over a non-empty group -/
+def aggVal (o : Ops Val) (agg : Agg) (l : List (Pt Val)) : Val :=
+  match agg with
+  | .count => o.ofCount l.length
+  | .mean => o.mean (l.foldl (fun a x => o.add a x.2) o.zero) l.length
+  | _ => l.foldl (fun a x => o.add a x.2) o.zero
+
+theorem aggregate_nonsel (o : Ops Val) (agg : Agg) (hns : isSelector agg = false) (s : Int) (p : Pt Val) (ps : List (Pt Val)) :
+    Spec.C20.aggregate o agg s (p :: ps) = some (s, aggVal o agg (p :: ps)) := by
+  cases agg <;> simp_all [isSelector, Spec.C20.aggregate, aggVal]
+
+theorem members_nonempty (q : Req) (pts : List (Pt Val)) (i : Int) (hi : i ∈ distinctIdx q pts) :
+    members q pts i ≠ [] := by
+  obtain ⟨x, hx, hxi⟩ := (mem_distinctIdx q pts i).mp hi
+  intro he
+  have : x ∈ members q pts i := List.mem_filter.mpr ⟨hx, by simp [hxi]⟩
+  rw [he] at this; cases this
+
+theorem members_empty (q : Req) (pts : List (Pt Val)) (i : Int) (hi : i ∉ distinctIdx q pts) :
+    members q pts i = [] := by
+  rw [members, List.filter_eq_nil_iff]
+  intro x hx hxi
+  exact hi ((mem_distinctIdx q pts i).mpr ⟨x, hx, by simpa using hxi⟩)
+
+/-- the output of the storage cursor for a non-selector aggregate: one (window stop, value) per
+    distinct window -/
+theorem out_nonsel (o : Ops Val) (q : Req) (h : 0 < q.every) (hns : isSelector q.agg = false) (pts : List (Pt Val)) :
+    Spec.C20.aggSpec o q.agg (stopFn q) pts =
+      (distinctIdx q pts).map fun i => (q.offset + (i + 1) * q.every, aggVal o q.agg (members q pts i)) := by
+  rw [aggSpec_windows o q h]
+  have : ∀ i ∈ distinctIdx q pts, rowOfIn o q pts i = some (q.offset + (i + 1) * q.every, aggVal o q.agg (members q pts i)) := by
+    intro i hi
+    have hne := members_nonempty q pts i hi
+    unfold rowOfIn
+    cases hm : members q pts i with
+    | nil => exact absurd hm hne
+    | cons x xs =>
+      have : (pts.filter fun x => widx q x.1 == i) = x :: xs := hm
+      rw [this, aggregate_nonsel o q.agg hns]
+  generalize distinctIdx q pts = W at *
+  induction W with
+  | nil => rfl
+  | cons i is ih =>
+    rw [filterMap_cons_toList, this i (by simp), ih (fun j hj => this j (by simp [hj]))]
+    rfl
+
+theorem widx_stop (q : Req) (h : 0 < q.every) (i : Int) : widx q (q.offset + (i + 1) * q.every) = i + 1 :=
+  widx_unique q h _ (i + 1) (by omega) (by omega)
+
+theorem pointWin_stop (q : Req) (h : 0 < q.every) (i : Int) : pointWin q true (q.offset + (i + 1) * q.every) = i := by
+  simp [pointWin, widx_stop q h]
+
+/-- window indices of points inside the bounds lie between the first and the last window -/
+theorem widx_bounds (q : Req) (h : 0 < q.every) (hb : q.bstart < q.bstop) (t : Int) (h1 : q.bstart ≤ t) (h2 : t < q.bstop) :
+    widx q q.bstart ≤ widx q t ∧ widx q t ≤ widx q (q.bstop - 1) :=
+  ⟨widx_mono q h h1, widx_mono q h (by omega)⟩
+
+theorem valueAt_out (q : Req) (h : 0 < q.every) (f : Int → Val) :
+    ∀ (W : List Int) (k : Int),
+    valueAt q true (W.map fun i => (q.offset + (i + 1) * q.every, f i)) k = if k ∈ W then some (f k) else none := by
+  intro W
+  induction W with
+  | nil => intro k; simp [valueAt]
+  | cons i is ih =>
+    intro k
+    have hi := ih k
+    simp only [valueAt, List.map_cons, List.find?_cons, pointWin_stop q h] at hi ⊢
+    by_cases hik : i = k
+    · subst hik; simp
+    · have : (i == k) = false := by simpa using hik
+      simp only [this]
+      rw [hi]
+      have hk : (k = i) = False := by simp; exact fun he => hik he.symm
+      simp [List.mem_cons, hk]
 
 end Influx.FluxTable
